@@ -15,6 +15,11 @@
    kind "axis" : a rotation axis with integer components and rational length (it need not be a unit vector) and an
                  exact angle; the rotation matrix by Rodrigues' formula  c I + (1 - c) u u^T + s [u]x,  u = axis / length.
 
+   kind "rel"  : two rational unit quaternions q1, q2 and their relative rotation q2 conj(q1) (= R2 R1^T), where q2 is q1, -q1, or
+                 p q1 for a fixed partner p: the exact result is the identity resp. the rotation of p, while the floating-point
+                 product of two almost equal orientations is the identity only up to rounding (w = 1 +- ulp, trace = 3 +- ulp) -
+                 the conversions to angle / axis-angle and back must still give that rotation.
+
    Invariants on every published case: the matrix is a proper rotation (M M^T = den^2 I, row1 x row2 = den row3, i.e. det = +1); the
    conjugation definition and the closed-form quaternion matrix agree; the recovered quaternion gives the same matrix;
    a fixed-frame composition equals the moving-frame composition with order and angles reversed; an axis-angle rotation
@@ -107,12 +112,19 @@ ASSUME \A k \in 1..Len(Angles) : /\ Rodrigues(<<1, 0, 0, 1>>, Angles[k]) = Elem(
                                   /\ Rodrigues(<<0, 1, 0, 1>>, Angles[k]) = Elem(1, Angles[k])
                                   /\ Rodrigues(<<0, 0, 1, 1>>, Angles[k]) = Elem(2, Angles[k])
 
+(* relative rotations: partner 1 = the same orientation, 2 = its negated quaternion, from 3 on a fixed rotation applied on top *)
+Partners == << <<1, 0, 0, 0>>, <<-1, 0, 0, 0>>, <<0, 1, 0, 0>>, <<3, 4, 0, 0>>, <<1, 1, 1, 1>>, <<12, 0, -5, 0>> >>
+ASSUME \A i \in 1..Len(Partners) : \E n \in 1..13 : n * n = Norm2(Partners[i])
+Second(q, i) == QMul(Partners[i], q)
+Rel(q, i) == QMul(Second(q, i), QConj(q))
+
 -------------------------------------------------------------------------------
 AngleIx == 1..NAngles
 Init == /\ phase = "gen"
         /\ \/ c \in [k : {"euler"}, o : Orders, a : AngleIx \X AngleIx \X AngleIx, fixed : BOOLEAN]
            \/ c \in [k : {"quat"}, q : UnitQuats]
            \/ c \in [k : {"axis"}, x : 1..Len(Axes), a : 1..Len(Angles)]
+           \/ c \in [k : {"rel"}, q : UnitQuats, p : 1..Len(Partners)]
 
 Case(p) ==
     IF p.k = "euler" THEN
@@ -122,6 +134,10 @@ Case(p) ==
     ELSE IF p.k = "axis" THEN
         LET ax == Axes[p.x] an == Angles[p.a] IN
         [k |-> "axis", axis |-> ax, ang |-> an, m |-> FlatZ(Rodrigues(ax, an)), den |-> an[3] * ax[4] * ax[4]]
+    ELSE IF p.k = "rel" THEN
+        LET q2 == Second(p.q, p.p) r == Rel(p.q, p.p) IN
+        [k |-> "rel", q1 |-> p.q, n1 |-> Root(Norm2(p.q)), q2 |-> q2, n2den |-> Norm2(q2), p |-> p.p,
+         m |-> FlatZ(RotClosed(Partners[p.p])), den |-> Norm2(Partners[p.p]), ident |-> IF p.p <= 2 THEN 1 ELSE 0]
     ELSE
         LET M == RotByConj(p.q) IN
         [k |-> "quat", q |-> p.q, n |-> Root(Norm2(p.q)), m |-> FlatZ(M), den |-> Norm2(p.q),
@@ -147,6 +163,14 @@ AxisAngle == (phase = "done" /\ c.k = "axis") =>
     LET M == Unflat(c.m) v == <<c.axis[1], c.axis[2], c.axis[3]>> L == c.axis[4] IN
     /\ \A i \in I3 : M[i][1] * v[1] + M[i][2] * v[2] + M[i][3] * v[3] = c.den * v[i]         \* the axis is fixed
     /\ M[1][1] + M[2][2] + M[3][3] = (c.ang[3] + 2 * c.ang[1]) * L * L                        \* trace = 1 + 2 cos
+\* the relative rotation of two orientations: as a quaternion product and as R2 R1^T it is the same rotation, it is the partner's
+\* rotation, and for partner 1 and 2 (q2 = +-q1) it is exactly the identity
+RelOK == (phase = "done" /\ c.k = "rel") =>
+    LET r == QMul(c.q2, QConj(c.q1)) IN
+    /\ Norm2(r) = Norm2(c.q1) * c.n2den /\ c.den = Norm2(Partners[c.p])
+    /\ RotClosed(r) = MulZ(RotClosed(c.q2), TransZ(RotClosed(c.q1)))                       \* quaternion product = R2 R1^T
+    /\ \A i, j \in I3 : RotClosed(r)[i][j] * c.den = Unflat(c.m)[i][j] * Norm2(r)          \* ... = the partner's rotation (published reduced)
+    /\ (c.ident = 1 => Unflat(c.m) = ScaleI(c.den))
 \* every branch of the conversion design is exercised by the quaternion set (checked on the parameters, not per state)
 ASSUME K < 2 \/ {Branch(RotClosed(q)) : q \in UnitQuats} = 0..3
 
